@@ -60,6 +60,17 @@ enum WClientMessage {
     Cancel { trace_context: WTrace, request_id: u64 },
 }
 
+#[derive(Serialize, Clone, Debug)]
+struct WServerError {
+    kind: u32,
+    detail: String,
+}
+#[derive(Serialize, Clone, Debug)]
+struct WResponse {
+    request_id: u64,
+    message: Result<u64, WServerError>,
+}
+
 fn wtrace(n: u64) -> WTrace {
     WTrace { trace_id: (n as u128 + 1).to_le_bytes(), span_id: n.wrapping_add(1), sampling_decision: if n % 2 == 0 { WSampling::Sampled } else { WSampling::Unsampled } }
 }
@@ -71,7 +82,7 @@ fn encode<T: Serialize>(codec: Codec, v: &T) -> Vec<u8> {
     }
 }
 
-fn frame(payload: &[u8]) -> Vec<u8> {
+pub fn frame(payload: &[u8]) -> Vec<u8> {
     let mut f = (payload.len() as u32).to_be_bytes().to_vec();
     f.extend_from_slice(payload);
     f
@@ -96,8 +107,13 @@ pub fn mirror_self_test() -> Result<(), String> {
     });
     let real_c: ClientMessage<u64> = ClientMessage::Cancel { trace_context: ctx.trace_context, request_id: 3 };
     let mirror_c = WClientMessage::Cancel { trace_context: wtrace(5), request_id: 3 };
+    let real_r: Response<u64> = Response { request_id: 4, message: Err(tarpc::ServerError::new(std::io::ErrorKind::TimedOut, "d".into())) };
+    let mirror_r = WResponse { request_id: 4, message: Err(WServerError { kind: 13, detail: "d".into() }) };
     let mut r = Ok(());
     for codec in [Codec::Json, Codec::Bincode] {
+        if encode(codec, &real_r) != encode(codec, &mirror_r) {
+            r = Err(format!("harness self-test: mirror response type does not encode like tarpc's under {codec:?}"));
+        }
         if encode(codec, &real) != encode(codec, &mirror) || encode(codec, &real_c) != encode(codec, &mirror_c) {
             r = Err(format!("harness self-test: mirror wire types do not encode like tarpc's under {codec:?}"));
         }
@@ -122,6 +138,8 @@ pub enum SFrame {
     DupFlood { n: u8 },
     /// let virtual time pass
     Advance { ms: u32 },
+    /// (RawFrames only) a Response frame whose error kind is chosen by the peer
+    ErrResponse { id: u64, kind: u32 },
 }
 
 #[derive(Clone, Debug, Serialize, Deserialize, PartialEq, Eq)]
@@ -135,6 +153,8 @@ pub enum CFrame {
     /// repeat the last response n times
     DupFlood { n: u8 },
     Advance { ms: u32 },
+    /// answer the oldest unanswered call with an error whose wire kind is chosen by the peer
+    ReplyErrKind { kind: u32 },
 }
 
 #[derive(Clone, Debug, Serialize, Deserialize, PartialEq, Eq)]
@@ -183,7 +203,7 @@ fn panic_violation(what: &str, msg: &str, sc: &Sc16) -> Violation {
 
 // ------------------------------------------------------------------ layer 1: bytes
 
-fn real_frames(codec: Codec, client_message: bool, base: &[MsgSpec]) -> Vec<Vec<u8>> {
+pub fn real_frames(codec: Codec, client_message: bool, base: &[MsgSpec]) -> Vec<Vec<u8>> {
     let now = Instant::now();
     let mut out = vec![];
     for m in base {
@@ -215,7 +235,7 @@ fn real_frames(codec: Codec, client_message: bool, base: &[MsgSpec]) -> Vec<Vec<
     out
 }
 
-fn decode_direct(codec: Codec, client_message: bool, payload: &[u8]) -> Result<bool, String> {
+pub fn decode_direct(codec: Codec, client_message: bool, payload: &[u8]) -> Result<bool, String> {
     crate::sim::exec::catch(|| match (codec, client_message) {
         (Codec::Json, true) => serde_json::from_slice::<ClientMessage<Body>>(payload).is_ok(),
         (Codec::Json, false) => serde_json::from_slice::<Response<Body>>(payload).is_ok(),
@@ -225,7 +245,7 @@ fn decode_direct(codec: Codec, client_message: bool, payload: &[u8]) -> Result<b
 }
 
 /// Feed a byte string through LengthDelimitedCodec + serde transport until end / error; returns (items, ended_with_error).
-fn decode_via_transport(codec: Codec, client_message: bool, bytes: &[u8]) -> Result<(usize, bool), String> {
+pub fn decode_via_transport(codec: Codec, client_message: bool, bytes: &[u8]) -> Result<(usize, bool), String> {
     crate::sim::exec::catch(|| {
         let (a, b) = pipe();
         {
@@ -506,6 +526,7 @@ fn check_server(sc: &Sc16, codec: Codec, subscriber: u8, frames: &[SFrame]) -> C
                     }
                 }
                 SFrame::Advance { ms } => clock::advance(Duration::from_millis(*ms as u64)).await,
+                SFrame::ErrResponse { .. } => {}
             }
             for _ in 0..4 {
                 drain(&exec).await?;
@@ -655,6 +676,14 @@ fn check_client(sc: &Sc16, codec: Codec, subscriber: u8, frames: &[CFrame]) -> C
                     }
                 }
                 CFrame::Advance { ms } => clock::advance(Duration::from_millis(*ms as u64)).await,
+                CFrame::ReplyErrKind { kind } => {
+                    if let Some(id) = seen_requests.pop_front() {
+                        boundary += 1;
+                        let fr = frame(&encode(codec, &WResponse { request_id: id, message: Err(WServerError { kind: *kind, detail: "k".into() }) }));
+                        push_bytes(&to_client, &fr);
+                        last_resp = Some(fr);
+                    }
+                }
             }
             drain(&exec).await?;
             collect(&mut seen_requests);
@@ -799,6 +828,26 @@ fn check_raw_frames(sc: &Sc16, codec: Codec, frames: &[SFrame]) -> CaseResult {
                 )
             }
             SFrame::Cancel { id } => encode(codec, &WClientMessage::Cancel { trace_context: wtrace(*id), request_id: *id }),
+            SFrame::ErrResponse { id, kind } => {
+                // decoded as a Response: every kind value must be understood (unknown ones as Other)
+                let payload = encode(codec, &WResponse { request_id: *id, message: Err(WServerError { kind: *kind, detail: "k".into() }) });
+                boundary += 1;
+                match crate::sim::exec::catch(|| match codec {
+                    Codec::Json => serde_json::from_slice::<Response<u64>>(&payload).map(|r| r.message.is_err()).unwrap_or(false),
+                    Codec::Bincode => bincode::DefaultOptions::new().deserialize::<Response<u64>>(&payload).map(|r| r.message.is_err()).unwrap_or(false),
+                }) {
+                    Ok(true) => {}
+                    Ok(false) => {
+                        clock::disable();
+                        return Err(Violation::new(format!("{codec:?} decoder rejected a well-formed error response with wire kind {kind}")).with_detail(json!({"scenario": sc})));
+                    }
+                    Err(m) => {
+                        clock::disable();
+                        return Err(panic_violation(&format!("{codec:?} decoder on an error response with wire kind {kind}"), &m, sc));
+                    }
+                }
+                continue;
+            }
             _ => continue,
         };
         match crate::sim::exec::catch(|| match codec {
@@ -936,6 +985,7 @@ pub fn strategy(full_range: bool) -> BoxedStrategy<Sc16> {
         4 => prop_oneof![Just(10u64), 0u64..100, Just(F3_SAFE_SECS)].prop_map(|secs| CFrame::Call { secs }),
         3 => Just(CFrame::ReplyOldest),
         3 => (id16(), any::<bool>()).prop_map(|(id, err)| CFrame::Stray { id, err }),
+        2 => prop_oneof![0u32..24, Just(255u32), Just(u32::MAX), Just(1u32 << 31), any::<u32>()].prop_map(|kind| CFrame::ReplyErrKind { kind }),
         1 => (1u8..40).prop_map(|n| CFrame::DupFlood { n }),
         1 => (0u32..5_000).prop_map(|ms| CFrame::Advance { ms }),
     ];
@@ -946,6 +996,7 @@ pub fn strategy(full_range: bool) -> BoxedStrategy<Sc16> {
         prop_oneof![
             6 => (id16(), dur_strategy(true), any::<u64>()).prop_map(|(id, dur, body)| SFrame::Request { id, dur, body }),
             1 => id16().prop_map(|id| SFrame::Cancel { id }),
+            3 => (id16(), prop_oneof![0u32..24, Just(255u32), Just(u32::MAX), any::<u32>()]).prop_map(|(id, kind)| SFrame::ErrResponse { id, kind }),
         ],
         0..8,
     ))
